@@ -972,33 +972,34 @@ class Exec(object):
         outs = []
         for s1, oc in self.block(n.body, st):
             if oc[0] == 'yield':
-                # a generator context manager suspended inside this try: run the with-body, then resume (contextlib protocol)
+                # a generator context manager suspended inside this try: run the with-body, then resume the generator (contextlib
+                # protocol): a raising body is re-raised at the yield; any other body outcome is parked and the generator continues
+                # normally after the yield (do_with decides what the finished generator means for the parked outcome)
                 idx = next(i for i, x in enumerate(n.body) if isinstance(x, ast.Expr) and isinstance(x.value, ast.Yield))
                 res = []
                 for s2, boc in resume(s1):
+                    s2.g['parked'] = dict(s2.g.get('parked', {})); s2.g['parked'][s2.stack[-1]] = boc
                     if boc[0] == 'raise':
-                        res.append((s2, boc, None))
+                        res.append((s2, boc))
                     else:
-                        for s3, oc3 in self.block(n.body[idx + 1:], s2):
-                            res.append((s3, oc3, boc) if oc3[0] == 'normal' else (s3, oc3, None))
+                        res += self.block(n.body[idx + 1:], s2)
             else:
-                res = [(s1, oc, None)]
-            for s2, oc2, pk in res:
+                res = [(s1, oc)]
+            for s2, oc2 in res:
                 if oc2[0] == 'raise' and n.handlers:
-                    after = [(a, b, None) for a, b in self.handlers(n, s2, oc2)]
-                elif oc2[0] == 'normal' and n.orelse and pk is None:
-                    after = [(a, b, None) for a, b in self.block(n.orelse, s2)]
+                    after = self.handlers(n, s2, oc2)
+                elif oc2[0] == 'normal' and n.orelse:
+                    after = self.block(n.orelse, s2)
                 else:
-                    after = [(s2, oc2, pk)]
-                for s3, oc3, pk3 in after:
-                    eff = pk3 if (pk3 is not None and oc3[0] == 'normal') else oc3
+                    after = [(s2, oc2)]
+                for s3, oc3 in after:
                     if n.finalbody:
-                        if eff[0] == 'raise': s3.excstack.append(eff[1])
+                        if oc3[0] == 'raise': s3.excstack.append(oc3[1])
                         for s4, oc4 in self.block(n.finalbody, s3):
-                            if eff[0] == 'raise': s4.excstack.pop()
-                            outs.append((s4, oc4 if oc4[0] != 'normal' else eff))
+                            if oc3[0] == 'raise': s4.excstack.pop()
+                            outs.append((s4, oc4 if oc4[0] != 'normal' else oc3))
                     else:
-                        outs.append((s3, eff))
+                        outs.append((s3, oc3))
         return outs
 
     def s_With(self, n, st):
